@@ -14,7 +14,7 @@ LVars == {"a", "b", "c"}
 IdxKinds == {"m1", "zero", "last", "len"}
 ListOps ==
     [op : {"push", "reverse", "clear", "map", "filter", "len", "indexof_hit", "indexof_miss", "concat", "inner", "filterto", "mapto"}, x : LVars]
-    \cup [op : {"remove", "read", "set", "opset", "opsub"}, x : LVars, i : IdxKinds]
+    \cup [op : {"remove", "read", "set", "opset", "opsub", "seteq"}, x : LVars, i : IdxKinds]
     \cup [op : {"join", "eq", "joinalias"}, x : {"a", "b"}, y : LVars] \cup [op : {"join", "eq"}, x : {"c"}, y : LVars]
     \cup [op : {"alias", "clone"}, y : {"a", "b"}]          \* c = y   /   c = y.clone()
     \cup [op : {"litfrom", "mapfrom", "eqboxed"}, x : {"a"}]  \* c = [a[0], a[1]] / c = [0].map(fn(i) { return a[i] }): elements copied, not aliased
@@ -85,6 +85,12 @@ ListStmts(o, n) ==
       \* a non-commutative op-assignment on an element
       [] o.op = "opsub" -> IF ty = "int" THEN <<Let("k", IdxExpr(o.x, o.i)), Assign(Idx(V(o.x), V("k")), "-", I(3))>>
                            ELSE <<Let("k", IdxExpr(o.x, o.i)), Print(Idx(V(o.x), V("k")))>>
+      \* a slot is overwritten with a *different* list of *equal* contents: from then on the slot is that list (written through
+      \* afterwards); for scalar elements: the value it already holds
+      [] o.op = "seteq" -> IF ty = "nest"
+                           THEN <<Let("k", IdxExpr(o.x, o.i)), Let("inr", Idx(V(o.x), V("k"))), Let("eqc", MCall(V("inr"), "clone", <<>>)),
+                                  Assign(Idx(V(o.x), V("k")), "=", V("eqc")), ExprS(MCall(V("eqc"), "push", <<I(90 + n)>>))>>
+                           ELSE <<Let("k", IdxExpr(o.x, o.i)), Let("inr", Idx(V(o.x), V("k"))), Assign(Idx(V(o.x), V("k")), "=", V("inr"))>>
       [] o.op = "join" -> <<Print(MCall(V(o.x), "join", <<V(o.y)>>))>>
       \* the result of join *is* the receiver: c becomes an alias of x
       [] o.op = "joinalias" -> <<Let("c", MCall(V(o.x), "join", <<V(o.y)>>)), Print(Bin("is", V("c"), V(o.x)))>>
